@@ -16,6 +16,7 @@ import runpy
 import signal
 import sys
 
+_REAL_GETPID = os.getpid  # children may be given a simulated pid (os.getpid is replaced there); signals need the real one
 REPO_SRC = os.environ.get("NANOEMOJI_SRC", "/repo/src")
 SIM_DIR = os.path.dirname(os.path.abspath(__file__))
 VENV_BIN = "/venv/bin"
@@ -360,7 +361,7 @@ def _install_kill_at_op(k, root):
             hit = any(isinstance(a, (str, bytes, os.PathLike)) and under(a) for a in args[:2])
         if hit:
             if state["n"] == k:
-                os.kill(os.getpid(), signal.SIGKILL)
+                os.kill(_REAL_GETPID(), signal.SIGKILL)
             state["n"] += 1
 
     sys.addaudithook(hook)
@@ -404,6 +405,22 @@ def launch(argv, cwd, env, out_path, fault=None, trace=None, proc="", readdir_se
             os.chdir(cwd)
             os.environ.clear()
             os.environ.update(env)
+            if env.get("NSIM_NOW_NS"):
+                # wall-clock reads of the simulated process see the SIMULATED time (file stamps come from the same clock);
+                # every read advances it by a millisecond, so the values do not depend on how fast this machine is
+                import time as _tm
+
+                _clk = {"ns": int(env["NSIM_NOW_NS"])}
+
+                def _time_ns():
+                    _clk["ns"] += 1_000_000
+                    return _clk["ns"]
+
+                _tm.time_ns = _time_ns
+                _tm.time = lambda: _time_ns() / 1e9
+            if env.get("NSIM_FAKE_PID"):
+                _pid = int(env["NSIM_FAKE_PID"])
+                os.getpid = lambda: _pid  # what the code under test sees; the kernel's idea of the pid is untouched
             if env.get("NSIM_UMASK"):
                 os.umask(int(env["NSIM_UMASK"], 8))
             if env.get("NSIM_CPU_COUNT"):
